@@ -68,9 +68,7 @@ def addInput (txs : List Tx) (tx : Tx) (g : Graph) (inp : Nat × Nat) : Graph :=
     if inputNode.outEdges.contains ph then g
     else
       -- inputTx := inputNode.value; if inputTx == nil { inputTx = set[hash] }
-      let inputTx := match inputNode.value with
-        | some v => some v
-        | none => some parentTx
+      let inputTx := inputNode.value.or (some parentTx)
       let g1 := g.set ph ⟨inputTx, inputNode.outEdges ++ [tx.hash], inputNode.inDegree⟩
       let node := g1.get tx.hash
       g1.set tx.hash ⟨some tx, node.outEdges, node.inDegree + 1⟩
@@ -140,6 +138,15 @@ def isPerm (S : List Tx) (out : List Nat) : Bool :=
 /-- every spend edge inside `S` goes forward in `out`. -/
 def parentsFirst (S : List Tx) (out : List Nat) : Bool :=
   (edges S).all fun e => out.idxOf e.1 < out.idxOf e.2
+
+/-- Transitive closure of a relation on hashes (a non-empty walk). -/
+inductive Reach (r : Nat → Nat → Prop) : Nat → Nat → Prop
+  | single {a b} : r a b → Reach r a b
+  | cons {a b c} : r a b → Reach r b c → Reach r a c
+
+/-- `S` is a DAG: no transaction of `S` (transitively) spends an output of itself.  Real transactions always
+satisfy this, because a transaction hash commits to the hashes of the transactions it spends. -/
+def Acyclic (S : List Tx) : Prop := ∀ h, ¬ Reach (fun p c => (p, c) ∈ edges S) h h
 
 /-! ### Enumeration of iteration orders (driver: output-set membership for small graphs) -/
 
